@@ -18,7 +18,7 @@ RULE = (
     "non-in-place operators unchanged. Non-trivial = the derivation is not the identity on an immutable value."
 )
 BUDGET = {"quick": 60000, "thorough": 2000000}
-TIME_CAP = {"quick": 70, "thorough": 1500}
+TIME_CAP = {"quick": 240, "thorough": 1500}
 ANCHORS = ["Length.__copy__", "Point.__copy__", "Matrix.__copy__", "Move.__copy__", "Linear.__copy__", "QuadraticBezier.__copy__", "CubicBezier.__copy__",
            "Arc.__copy__", "Path.__copy__", "Path.__init__", "Shape.property_by_object", "GraphicObject.property_by_object", "Transformable.property_by_object",
            "Rect.__copy__", "Ellipse.__copy__", "Circle.__copy__", "SimpleLine.__copy__", "Polyline.__copy__", "Polygon.__copy__", "Group.__init__",
